@@ -85,7 +85,12 @@ fn main() {
         "C15" => c15::run(&opts, &mut Emitter::new(&mut out, opts.only)),
         "C03" => c03::run(&opts, &mut Emitter::new(&mut out, opts.only), false),
         "C04" => c03::run(&opts, &mut Emitter::new(&mut out, opts.only), true),
-        "C02" | "C08" | "C09" | "C10" => {
+        "C08" => {
+            let mut em = Emitter::new(&mut out, opts.only);
+            compilep::run(&opts, &mut em, "C08");
+            resolvep::run_c08_lang(&opts, &mut em);
+        }
+        "C02" | "C09" | "C10" => {
             compilep::run(&opts, &mut Emitter::new(&mut out, opts.only), prop.as_str())
         }
         "C14" => {
